@@ -83,12 +83,16 @@ Proof.
   eapply ext_trans; [|apply ext_add_log; exact I]. apply ext_same. auto.
 Qed.
 
+Lemma set_unmod_if'_ext (b : bool) s : ext s (if b then s else set_unmod s).
+Proof. destruct b; [apply ext_refl|apply ext_same; auto]. Qed.
+
 Lemma deliver_ext E s n o data : ext s (fst (deliver E s n o data)).
 Proof.
   unfold deliver. destruct data as [|b d]; [apply ext_refl|].
   destruct (os_kind o).
   - destruct (os_off o); apply ext_same; auto.
-  - set (s1 := match c_sink (e_spec E n) with Some t => _ | None => s end).
+  - destruct (c_drain (e_spec E n)); [|cbn [fst]; apply set_unmod_if'_ext].
+    set (s1 := match c_sink (e_spec E n) with Some t => _ | None => s end).
     assert (H1 : ext s s1) by (subst s1; destruct (c_sink (e_spec E n)); [apply ext_same; auto|apply ext_refl]).
     destruct (c_echo (e_spec E n)); auto.
     pose proof (child_out_ext E s1 (os_cgfail o) (b :: d)) as H2.
@@ -110,8 +114,9 @@ Qed.
 Lemma flush_named_ext E s n o : ext s (flush_named E s n o).
 Proof.
   unfold flush_named. pose proof (flush_ostream_ext E s n o) as H.
-  destruct (flush_ostream _ _ _ _) as [s1 o1]. cbn [fst] in H.
-  eapply ext_trans; eauto. apply ext_same. auto.
+  destruct (flush_ostream _ _ _ _) as [s1 o1]. cbn [fst] in H. cbv zeta.
+  apply (ext_trans _ s1); auto. apply (ext_trans _ (set_outs s1 (aset n o1 (st_outs s1)))); [apply ext_same; auto|].
+  destruct (os_err o1); [apply ext_same; apply flush_stdout_log|apply ext_refl].
 Qed.
 
 Lemma flush_streams_ext E ns : forall s, ext s (flush_streams E s ns).
@@ -188,9 +193,20 @@ Proof. unfold scan_stream. destruct (is_rest i); [apply ext_same; auto|]. destru
 Lemma if_print_errorf_ext E (b : bool) s : ext s (if b then print_errorf E s else s).
 Proof. destruct b; [apply ext_same; apply flush_stdout_log|apply ext_refl]. Qed.
 
+Lemma getline_file_ext E s n : ext s (fst (getline_file E s n)).
+Proof.
+  unfold getline_file. set (s0 := if sink_busy E s n then set_unmod s else s).
+  assert (H0 : ext s s0) by (subst s0; apply set_unmod_if_ext). clearbody s0.
+  apply (ext_trans _ s0); auto.
+  destruct (amem n (st_outs s0)); [apply ext_refl|].
+  destruct (alookup n (st_ins s0)) as [i|]; cbn [fst]; [apply scan_stream_ext|].
+  destruct (alookup n (st_fs s0)); cbn [fst]; [|apply ext_same; auto].
+  eapply ext_trans; [|apply scan_stream_ext]. apply ext_same; auto.
+Qed.
+
 Lemma step_ext E s o : ext s (fst (step E s o)).
 Proof.
-  destruct o as [d ps|n|[n|]|c|n|c| |code|]; cbn [step].
+  destruct o as [d ps|n|[n|]|c|n|c| |code| |n]; cbn [step].
   - pose proof (get_output_stream_ext E s d) as H1. destruct (get_output_stream E s d) as [s1 [[|n]|]]; cbn [fst] in *; auto.
     + pose proof (write_stdout_ext E s1 ps) as H2. destruct (write_stdout E s1 ps) as [s2 [|]]; cbn [fst] in *; eapply ext_trans; eauto.
     + destruct (alookup n (st_outs s1)) as [os|]; cbn [fst]; auto.
@@ -220,10 +236,7 @@ Proof.
     destruct (wait_result _ _) as [code err]. cbn [fst].
     apply (ext_trans _ s1); auto. apply (ext_trans _ s2); auto. apply (ext_trans _ s3); auto. apply (ext_trans _ s4); auto.
     apply (ext_trans _ (if err then print_errorf E s4 else s4)); [apply if_print_errorf_ext|apply ext_same; auto].
-  - destruct (amem n (st_outs s)); [apply ext_refl|].
-    destruct (alookup n (st_ins s)) as [i|]; cbn [fst]; [apply scan_stream_ext|].
-    destruct (alookup n (st_fs s)); cbn [fst]; [|apply ext_same; auto].
-    eapply ext_trans; [|apply scan_stream_ext]. apply ext_same; auto.
+  - apply getline_file_ext.
   - destruct (amem c (st_outs s)); [apply ext_refl|].
     destruct (alookup c (st_ins s)) as [i|]; cbn [fst]; [apply scan_stream_ext|].
     destruct (flush_stdout_log E s) as (Hl & Hf). fold (flush_out_err E s) in Hl, Hf.
@@ -233,6 +246,9 @@ Proof.
   - cbn [fst]. apply ext_same. cbn. apply flush_stdout_log.
   - apply ext_refl.
   - apply ext_refl.
+  - destruct (amem n (st_outs s)); [apply ext_refl|].
+    destruct (negb (amem n (st_ins s)) && negb (amem n (st_fs s))); [apply ext_same; auto|].
+    apply (ext_trans _ (add_synced s n)); [apply ext_same; auto|apply getline_file_ext].
 Qed.
 
 Lemma exec_ext E ops : forall s, ext s (fst (exec E s ops)).
